@@ -84,17 +84,47 @@ func (g *genState) setLimit(v uint32) {
 	}
 }
 
-func genField(r *vu.Rng, g *genState) string {
+// pools of one case: a few names and values, so that the same pair comes back (dynamic-table hits,
+// re-references after eviction, sensitive and non-sensitive copies of the same pair).
+type casePools struct {
+	names, values []string
+}
+
+func genPools(r *vu.Rng) *casePools {
+	c := &casePools{}
+	for k := r.Range(2, 5); k > 0; k-- {
+		if r.Chance(1, 6) {
+			c.names = append(c.names, genString(r, lenPool[r.Intn(8)]))
+		} else {
+			c.names = append(c.names, namePool[r.Intn(len(namePool))])
+		}
+	}
+	for k := r.Range(2, 5); k > 0; k-- {
+		if r.Chance(1, 3) {
+			c.values = append(c.values, genString(r, lenPool[r.Intn(len(lenPool))]))
+		} else {
+			c.values = append(c.values, valuePool[r.Intn(len(valuePool))])
+		}
+	}
+	return c
+}
+
+func genField(r *vu.Rng, g *genState, c *casePools) string {
 	var name, value string
-	if r.Chance(8, 10) {
+	switch {
+	case r.Chance(7, 10):
+		name = c.names[r.Intn(len(c.names))]
+	case r.Chance(2, 3):
 		name = namePool[r.Intn(len(namePool))]
-	} else {
+	default:
 		name = genString(r, lenPool[r.Intn(8)])
 	}
 	switch {
-	case r.Chance(5, 10):
+	case r.Chance(6, 10):
+		value = c.values[r.Intn(len(c.values))]
+	case r.Chance(1, 3):
 		value = valuePool[r.Intn(len(valuePool))]
-	case r.Chance(1, 3) && g.max >= 32 && g.max <= 70000:
+	case r.Chance(1, 2) && g.max >= 32 && g.max <= 1100:
 		// entry size around the current table size: len(name)+len(value)+32 = max + {-2..2}
 		n := int(g.max) - 32 - len(name) + r.Range(-2, 2)
 		if n < 0 {
@@ -107,7 +137,7 @@ func genField(r *vu.Rng, g *genState) string {
 	sens := 0
 	p := 25
 	if verifMode == "C05" {
-		p = 50
+		p = 45
 	}
 	if r.Chance(p, 100) {
 		sens = 1
@@ -162,6 +192,7 @@ func genSizeOps(r *vu.Rng, g *genState) []string {
 
 func gen(r *vu.Rng, i int) []string {
 	g := &genState{limit: 4096, max: 4096, maxLimit: 4096}
+	c := genPools(r)
 	var body []string
 	nblocks := r.Range(1, 8)
 	if r.Chance(1, 6) {
@@ -175,9 +206,9 @@ func gen(r *vu.Rng, i int) []string {
 			body = append(body, genSizeOps(r, g)...)
 		}
 		for k := r.Intn(7); k > 0; k-- {
-			body = append(body, genField(r, g))
+			body = append(body, genField(r, g, c))
 			if r.Chance(1, 10) {
-				body = append(body, "search"+strings.TrimPrefix(genField(r, g), "wf"))
+				body = append(body, "search"+strings.TrimPrefix(genField(r, g, c), "wf"))
 			}
 		}
 		body = append(body, "end")
